@@ -16,6 +16,7 @@ package main
 import (
 	"encoding/base64"
 	"encoding/json"
+	"errors"
 	"fmt"
 	"sort"
 	"strconv"
@@ -46,9 +47,12 @@ import (
 	"github.com/hyperledger/aries-framework-go/pkg/didcomm/protocol/messagepickup"
 	"github.com/hyperledger/aries-framework-go/pkg/didcomm/protocol/presentproof"
 	mockdispatcher "github.com/hyperledger/aries-framework-go/pkg/mock/didcomm/dispatcher"
+	mockpackager "github.com/hyperledger/aries-framework-go/pkg/mock/didcomm/packager"
 	mockprovider "github.com/hyperledger/aries-framework-go/pkg/mock/provider"
 	mockvdr "github.com/hyperledger/aries-framework-go/pkg/mock/vdr"
+	"github.com/hyperledger/aries-framework-go/pkg/store/connection"
 	spilog "github.com/hyperledger/aries-framework-go/spi/log"
+	spistorage "github.com/hyperledger/aries-framework-go/spi/storage"
 )
 
 // ---- the confusion engine --------------------------------------------------------------------------------------------
@@ -299,6 +303,15 @@ func c03Compact(tok, sep string, k, r int) string {
 }
 
 // byte strings: truncation, extension, a byte set to an extreme
+// c03Exact returns the bytes in a slice WITHOUT spare capacity (as a decoder of unpadded base64, or a buffer made to
+// measure, hands them over): a parser that slices past the end of such input panics, while on a slice with rounded-up
+// capacity the same mistake goes unnoticed
+func c03Exact(b []byte) []byte {
+	out := make([]byte, len(b))
+	copy(out, b)
+	return out[:len(b):len(b)]
+}
+
 func c03Bytes(valid []byte, k, r int) []byte {
 	if len(valid) == 0 {
 		return []byte{byte(r)}
@@ -306,23 +319,26 @@ func c03Bytes(valid []byte, k, r int) []byte {
 	pos := k % len(valid)
 	switch r % 6 {
 	case 0:
-		return append([]byte{}, valid[:pos]...)
+		if k%2 == 1 && len(valid) > 9 {
+			pos = len(valid) - 1 - (k/2)%8 // cut off the last 1..8 bytes: off-by-a-few length checks live at the tail
+		}
+		return c03Exact(valid[:pos])
 	case 1:
-		return append(append([]byte{}, valid...), valid[:pos]...)
+		return c03Exact(append(append([]byte{}, valid...), valid[:pos]...))
 	case 2:
-		out := append([]byte{}, valid...)
+		out := c03Exact(valid)
 		out[pos] = 0xff
 		return out
 	case 3:
-		out := append([]byte{}, valid...)
+		out := c03Exact(valid)
 		out[pos] = 0
 		return out
 	case 4:
-		out := append([]byte{}, valid...)
+		out := c03Exact(valid)
 		out[pos] ^= 0x80
 		return out
 	}
-	return append(append([]byte{}, valid[:pos]...), valid[pos+1:]...)
+	return c03Exact(append(append([]byte{}, valid[:pos]...), valid[pos+1:]...))
 }
 
 func c03Res(err error) string {
@@ -474,6 +490,16 @@ func c03VC(variant string, k, r int) string {
 		_, err := verifiable.ParsePresentation(confused, verifiable.WithPresJSONLDDocumentLoader(c07E.loader),
 			verifiable.WithPresPublicKeyFetcher(verifiable.SingleKey(c07E.pubs["ed"], "Ed25519VerificationKey2018")))
 		return c03Res(err)
+	}
+	if v[0] == "bbs" && k%2 == 1 {
+		// the shape of a DERIVED credential (BbsBlsSignatureProof2020 with its nonce): the default suite selection reads it
+		var m map[string]interface{}
+		if json.Unmarshal(signed, &m) == nil {
+			if p, ok := m["proof"].(map[string]interface{}); ok {
+				p["type"], p["nonce"] = "BbsBlsSignatureProof2020", "bm9uY2U="
+				signed, _ = json.Marshal(m)
+			}
+		}
 	}
 	confused := c03JSON(signed, k, r)
 	_, err := verifiable.ParseCredential(confused, verifiable.WithJSONLDDocumentLoader(c07E.loader),
@@ -770,6 +796,65 @@ func c03Manifest(variant string, k, r int) string {
 	return "err"
 }
 
+// the CLIENT side of message pickup: BatchPickup sends its request and handles the mediator's batch - data of the other
+// party - in the caller's goroutine. The reply keeps the id and type that route it to the waiting call; everything else
+// is confused.
+func c03PickupClient(sp spistorage.Provider, k, r int) string {
+	out := &mockdispatcher.MockOutbound{}
+	prov := &mockprovider.Provider{StorageProviderValue: sp, ProtocolStateStorageProviderValue: mem.NewProvider(),
+		OutboundDispatcherValue: out, PackagerValue: &mockpackager.Packager{UnpackErr: errors.New("not for me")}}
+	svc, err := messagepickup.New(prov)
+	if err != nil {
+		return "na"
+	}
+	rec, err := connection.NewRecorder(prov)
+	if err != nil {
+		return "na"
+	}
+	if err := rec.SaveConnectionRecord(&connection.Record{ConnectionID: "c1", State: connection.StateNameCompleted,
+		MyDID: "did:example:me", TheirDID: "did:example:them", Namespace: connection.MyNSPrefix}); err != nil {
+		return "na"
+	}
+	ctx := service.NewDIDCommContext("did:example:me", "did:example:them", nil)
+	out.ValidateSendToDID = func(msg interface{}, _, _ string) error {
+		req, ok := msg.(service.DIDCommMsgMap)
+		if !ok {
+			return errors.New("unexpected request")
+		}
+		valid := map[string]interface{}{"@id": req.ID(), "@type": messagepickup.BatchMsgType,
+			"messages~attach": []interface{}{
+				map[string]interface{}{"id": "m1", "added_time": "2020-01-01T00:00:00Z", "msg": "e30="},
+				map[string]interface{}{"id": "m2", "added_time": "2020-01-02T00:00:00Z", "msg": "e30="}}}
+		b, _ := json.Marshal(valid)
+		var m map[string]interface{}
+		if json.Unmarshal(c03JSON(b, k, r), &m) != nil {
+			return nil
+		}
+		m["@id"], m["@type"] = req.ID(), messagepickup.BatchMsgType
+		b, _ = json.Marshal(m)
+		if reply, err := service.ParseDIDCommMsgMap(b); err == nil {
+			_, _ = svc.HandleInbound(reply, ctx)
+		}
+		return nil
+	}
+	done := make(chan string, 1)
+	go func() {
+		defer func() {
+			if p := recover(); p != nil {
+				done <- fmt.Sprintf("PANIC %v", p)
+			}
+		}()
+		_, err := svc.BatchPickup("c1", 2)
+		done <- c03Res(err)
+	}()
+	select {
+	case res := <-done:
+		return res
+	case <-time.After(400 * time.Millisecond):
+		return "err" // the reply did not decode: the call goes on waiting for one (its own 50 s limit)
+	}
+}
+
 // inbound handlers of the protocol services on confused messages
 func c03Proto(variant string, k, r int) string {
 	sp := mem.NewProvider()
@@ -824,6 +909,9 @@ func c03Proto(variant string, k, r int) string {
 		svc.VerifSync()
 		return res
 	case "pickup":
+		if len(v) > 1 && v[1] == "client" {
+			return c03PickupClient(sp, k, r)
+		}
 		out := &mockdispatcher.MockOutbound{}
 		svc, err := messagepickup.New(&mockprovider.Provider{StorageProviderValue: sp, ProtocolStateStorageProviderValue: mem.NewProvider(),
 			OutboundDispatcherValue: out})
@@ -919,7 +1007,7 @@ func c03Gen(r *Rng, tier string) []string {
 			case 1:
 				entry, variant = "proto", r.Pick([]string{"ic2", "ic3"})+","+r.Pick(icMsgs)
 			case 2:
-				entry, variant = "proto", "pickup,"+r.Pick([]string{"batch", "status"})
+				entry, variant = "proto", "pickup,"+r.Pick([]string{"batch", "status", "client"})
 			default:
 				entry, variant = "proto", "mediator,"+r.Pick([]string{"keylist", "forward"})
 			}
